@@ -9,6 +9,7 @@ ENTRY = {
                    "(nothing lost or doubled), the final tree equals the writes applied in stamp order, every Iter pass / View saw exactly the state of one stamp, each "
                    "reader's observed versions never decrease, and the invocation/response history of every key is linearizable against an absent|present(version) register.",
         level_note="Schedules are sampled, not enumerated: the scheduler is not under the harness's control. A linearizability search that times out is inconclusive and counted, never a violation.",
+        level_more='Later additions: read-only transactions held over scheduling points, ended twice and used afterwards (Reverse, Lookup), shared iterator sequences, a PATCH key whose verb root comes and goes, and transactions that register the same route twice (second call refused).',
         rule="cases: concurrent plans; non-trivial = at least one pair of operations on the same key (one of them a write) overlapped in time; distinct by plan",
         assumptions=["logical clock = shared atomic counter read before the call and after the return", "route handlers and annotations carry the version of the registration"],
         quick=[REPLAY,
